@@ -93,6 +93,16 @@ def check(case) -> Result:
         _check_state(b, res, f'after op {j} ({op["op"]})')
         if res.violations:
             return res
+        if op['op'] == 'run' and j < len(case['history']) - 1 and len(b.powertrain.time) >= 2:
+            # a snapshot in the middle of the history must neither fail nor disturb what follows
+            try:
+                import contextlib
+                import io
+                with contextlib.redirect_stdout(io.StringIO()):
+                    b.powertrain.snapshot(target_time=b.powertrain.time[-1], variables=['angular speed'])
+            except Exception as e:  # noqa
+                res.bad(f'C17/snapshot-fails/{type(e).__name__}', f'snapshot after op {j}: {type(e).__name__}: {e}')
+                return res
     if len(b.powertrain.time) >= 2:
         d = tempfile.mkdtemp(prefix='c17_')
         try:
